@@ -67,21 +67,21 @@ Definition geom_ok (g : geom) (H W : Z) : Prop :=
   match g with
   | GPad p => pad_nonneg p
   | GCrop p => in_bounds H W p
-  | GResize nh nw => 0 <= nh /\ 0 <= nw
+  | GResize nh nw _ _ => 0 <= nh /\ 0 <= nw
   | GFlip | GId => True
   end.
 Definition geom_okb (g : geom) (H W : Z) : bool :=
   match g with
   | GPad (l, t, r, b) => (0 <=? l) && (0 <=? t) && (0 <=? r) && (0 <=? b)
   | GCrop p => in_boundsb H W p
-  | GResize nh nw => (0 <=? nh) && (0 <=? nw)
+  | GResize nh nw _ _ => (0 <=? nh) && (0 <=? nw)
   | GFlip | GId => true
   end.
 Definition geom_dims (g : geom) (hw : Z * Z) : Z * Z :=
   match g with
   | GPad p => pad_dims hw p
   | GCrop (_, _, h, w) => (h, w)
-  | GResize nh nw => (nh, nw)
+  | GResize nh nw _ _ => (nh, nw)
   | GFlip | GId => hw
   end.
 Fixpoint geoms_ok (gs : list geom) (hw : Z * Z) : Prop :=
@@ -98,7 +98,7 @@ Fixpoint geoms_okb (gs : list geom) (hw : Z * Z) : bool :=
 Definition sop_wf (o : sop) : Prop :=
   match o with
   | SPad th tw | SCrop th tw _ => 0 <= th /\ 0 <= tw
-  | SRandResize nh nw | SResize nh nw => 0 <= nh /\ 0 <= nw
+  | SRandResize nh nw _ _ _ | SResize nh nw _ _ _ => 0 <= nh /\ 0 <= nw
   | SFlip _ | SOther => True
   end.
 
@@ -110,3 +110,12 @@ Definition sources_inside (H0 W0 : Z) (im : gimg) : Prop :=
 (* permutation of 0..L-1 as numpy.random.Generator.permutation(L) returns it *)
 Definition is_perm (perm : list Z) : Prop :=
   forall l, 0 <= l < Z.of_nat (length perm) -> In l perm.
+
+(* contract of a recorded nearest-neighbour index map (Prop version of Model.nn_okb): one entry per output index,
+   each the nominal source index of the library, or one below it where the nominal quotient is an exact integer *)
+Definition nn_ok (k : nn_kind) (n_in n_out : Z) (m : list Z) : Prop :=
+  Z.of_nat (length m) = n_out /\
+  forall i, 0 <= i < n_out ->
+    0 <= nn_at m i /\
+    (nn_at m i = nn_nominal k n_in n_out i \/
+     (nn_at m i = nn_nominal k n_in n_out i - 1 /\ nn_tie k n_in n_out i = true)).
